@@ -282,7 +282,9 @@ def emit_def(d, order=None, vis="pub "):
     for pos, text in d["extras"]:
         if pos >= len(units) and (pos, text) not in pre:
             lines.append(text)
-    lines.append("%sstruct %s {}" % (vis, d["name"]))
+    # every spelling of a struct without fields
+    body = [" {}", ";", "();", " { }", "{\n}"][sum(map(ord, d["name"])) % 5] if d.get("bodies", True) else " {}"
+    lines.append("%sstruct %s%s" % (vis, d["name"], body))
     return "\n".join(lines)
 
 
